@@ -67,7 +67,7 @@ PROPS = {
                      "counts 0..255, divisors 0/1/-1) with catch_unwind in an overflow-checking build: a PANIC of the real code is a violation; malformed = "
                      "near-miss lines the assembler never emits (must be a reported error in both); divx = MUL/IMUL/DIV/IDIV over the boundary lattice^3 of (AX, DX, operand) x 10 operand forms (divisors 0/1/-1, MIN dividends); non-trivial = outcome/state differs from plain NEXT"
                      " l2i ishapes: requests generated from the CURRENT interpreter grammar (every alternative of every instruction production x every table entry x every memory-operand alternative); l2 mixseq: mixed straight-line sequences over all instruction classes."),
-    "C08": dict(modules=["Emu8086.Props.C08", "Emu8086.Props.C08Flow", "Emu8086.Props.C11"], runs=[("l4", "run"), ("l3", "progs"), ("l3", "jumpspell"), ("l3", "roles")], gen=["Arch", "ILiterals", "PPGrammar"],
+    "C08": dict(modules=["Emu8086.Props.C08", "Emu8086.Props.C08Flow", "Emu8086.Props.C11"], runs=[("l4", "run"), ("l3", "progs"), ("l3", "jumpspell"), ("l3", "roles"), ("l4", "deep", {"VERIF_MODEL_FUEL": "400000"})], gen=["Arch", "ILiterals", "PPGrammar"],
                 rule="L4 run: structured terminating programs (procedures first, labels at every position incl. last / before procedures / macro uses / prints, "
                      "forward jumps, bounded LOOPs, calls of calls, start in the middle, code after hlt) executed by the REAL binary; the executed-instruction "
                      "trace, final registers and memory (verification hook) and stdout must equal the model's run loop; L3 progs: random whole programs through "
